@@ -38,7 +38,7 @@ Theorem C05_contract_from_graph_env :
     is_topo_order g order ->
     (forall p preds c, In (p, preds) g -> Graph.nunw p = GClass c ->
        exists d, E c = Some d /\ class_rel N d (E' c) /\
-                 (In GAny (map snd (Graph.cfields d)) -> noop_leaf any_id = true)) ->
+                 (In GAny (map snd (Graph.cfields d)) -> noop_leaf (any_id N) = true)) ->
     (forall p preds n, In (p, preds) g -> In n preds -> Graph.ncyc n = true -> cyc_ok N n = true) ->
     forall ns, tr_order N order = Some ns -> order_ok E' dir noop_leaf [] ns = true.
 Proof. exact order_ok_from_graph. Qed.
@@ -131,6 +131,11 @@ Proof. exact names_okb_sound. Qed.
 Local Open Scope string_scope.
 Local Open Scope list_scope.
 (* the recursive class of Props/C05.v at the string level:  class N0: kids: list[N0]; val: Optional[int] *)
+Definition ex_sid (s : scalar) : nat :=
+  match s with
+  | SInt => 0 | SStr => 1 | SFloat => 2 | SBool => 3 | SBytes => 4 | SDecimal => 5 | SDatetime => 6
+  | SDate => 7 | SUuid => 8 | SFraction => 9 | SPurePath => 10 | SEnum => 11
+  end.
 Definition brE : Graph.env := env_of
   [ (0, {| cmodule := "vm"; cqual := "N0";
            Graph.cfields := [("kids", GGen GList [GClass 0]); ("val", GUnion UOptional [GScalar SInt; GNone])] |}) ].
@@ -140,7 +145,7 @@ Definition brN : naming := {|
   fid := fun f => if String.eqb f "kids" then 0 else 1;
   flav := fun _ => FDataclass;
   fdef := fun _ _ => None;
-  creq := fun _ => [] |}.
+  creq := fun _ => []; sid := ex_sid; any_id := 12; lit_id := fun n => 13 + n; mkind := fun _ => KDict |}.
 Definition brRoot : gty := GGen GList [GClass 0].
 Definition brOrders (t : ty) : option (list node) :=
   if ty_eqb t (TSeq KList (TName 0)) then Some (exOrder ++ [exRoot]) else None.
@@ -186,8 +191,8 @@ Definition brN2 : naming := {|
   fid := fun f => String.length f;
   flav := fun _ => FDataclass;
   fdef := fun _ _ => None;
-  creq := fun _ => [] |}.
-Definition any_leaf (s : nat) : bool := Nat.eqb s any_id.
+  creq := fun _ => []; sid := ex_sid; any_id := 12; lit_id := fun n => 13 + n; mkind := fun _ => KDict |}.
+Definition any_leaf (s : nat) : bool := Nat.eqb s 12.
 
 Example C05Bridge_reference_node :
   exists g order ns,
@@ -231,7 +236,7 @@ Definition brN3 : naming := {|
   fid := fun f => String.length f;
   flav := fun _ => FDataclass;
   fdef := fun _ _ => None;
-  creq := fun _ => [] |}.
+  creq := fun _ => []; sid := ex_sid; any_id := 12; lit_id := fun n => 13 + n; mkind := fun _ => KDict |}.
 Definition brUniv3 : list gty := [GClass 0; brNT2; GScalar SFraction].
 
 Example C05Bridge_wrappers :
@@ -281,7 +286,7 @@ Qed.
    so does the contract (with Any passing through) *)
 Definition brN2bad : naming := {|
   rref := fun a mo => if String.eqb a "Node" then Some (TRef 1) else None;
-  wid := wid brN2; fid := fid brN2; flav := flav brN2; fdef := fdef brN2; creq := creq brN2 |}.
+  wid := wid brN2; fid := fid brN2; flav := flav brN2; fdef := fdef brN2; creq := creq brN2; sid := ex_sid; any_id := 12; lit_id := fun n => 13 + n; mkind := fun _ => KDict |}.
 Theorem C05_contract_refuted_wrong_resolver :
   exists g order ns,
     type_graph 20 brE2 (GClass 0) = Graph.Ok g /\ is_topo_order g order /\ tr_order brN2bad order = Some ns /\
